@@ -61,7 +61,7 @@ class Harness:
                  solvers=("cadical",), timeout=600, tiers=("quick", "thorough"),
                  bounded=None, cbmc_flags=(), cover=None, floor=1,
                  externals=(), replayable=True, note="", includes=(),
-                 remove_bodies=(), nondet_static=False):
+                 remove_bodies=(), nondet_static=False, static_unwind=()):
         self.name, self.src, self.entry = name, src, entry
         self.funcs = list(funcs)          # real functions under contract here
         self.enforce, self.replace = list(enforce), list(replace)
@@ -82,6 +82,9 @@ class Harness:
         self.includes = list(includes)
         self.remove_bodies = list(remove_bodies)
         self.nondet_static = nondet_static
+        # loops unwound by goto-instrument before cbmc ("fn.loopno:K"); needed where cbmc's dynamic unwinding counter
+        # misbehaves on goto-formed loops (hex.c).  Unwinding assertions are inserted statically, so this is still sound.
+        self.static_unwind = list(static_unwind)
 
 
 # --------------------------------------------------------------------------
@@ -175,6 +178,11 @@ def build(h, wd, cover=False):
         step(args, "replace-calls")
     if h.nondet_static:
         step(["--nondet-static"], "nondet-static")
+    if h.static_unwind:
+        args = []
+        for u in h.static_unwind:
+            args += ["--unwindset", u]
+        step(args + ([] if cover else ["--unwinding-assertions"]), "static-unwind")
     if h.enforce or h.replace or h.loop_contracts:
         args = ["--dfcc", h.entry]
         for f in h.enforce:
